@@ -787,6 +787,10 @@ def call_term(e, ctx):
                 return end_of(o, ctx)
             if n == "empty":
                 return ("cmp", "==", size_of(o, ctx), c(0))
+    if n in CMP_FUNCS and len(args) == 2:
+        # [utility.intcmp]: the mathematical comparison of the two values whatever their signedness ('p' values are compared
+        # without conversion)
+        return ("cmp", CMP_FUNCS[n], ("p", to_term(args[0], ctx)), ("p", to_term(args[1], ctx)))
     if n in ("distance",) and len(args) == 2:
         return ("-", to_term(args[1], ctx), to_term(args[0], ctx))
     if n in ("next",) and len(args) == 2:
@@ -800,6 +804,8 @@ def call_term(e, ctx):
     return unk(e)
 
 
+CMP_FUNCS = {"cmp_less": "<", "cmp_less_equal": "<=", "cmp_greater": ">", "cmp_greater_equal": ">=", "cmp_equal": "==",
+             "cmp_not_equal": "!="}
 LIMITS = {"unsigned char": (0, 255), "signed char": (-128, 127), "char": (-128, 127), "unsigned short": (0, 65535),
           "short": (-32768, 32767), "unsigned int": (0, (1 << 32) - 1), "int": (-(1 << 31), (1 << 31) - 1),
           "unsigned long": (0, M64 - 1), "long": (-S63, S63 - 1), "unsigned long long": (0, M64 - 1),
